@@ -338,4 +338,8 @@ class ParseMCNPCell:
         elif '*' in elt:
             trcl_params = [float(x) for x in trcl_params]
             trcl_params[3:] = list(map(to_cos, trcl_params[3:12]))
+        elif trcl_params:
+            # this is the case where the transform parameters were given inline
+            trcl_params = normalize_transform([float(param)
+                                               for param in trcl_params])
         return tuple(trcl_params)
